@@ -622,3 +622,205 @@ def exception_payloads(ctx, rule, modules, floor=1):
     d_, l_, e_ = scan([('', ct)])
     ks = [kind(c.args[1], enclosing(c)) for _, c in e_.get('EVENT_X_FAILURE', [])]
     R.check(ks == ['notexc', 'exc'] and nd >= floor, rule, f'{", ".join(modules)} | set_exception', f'{nd} direct set_exception calls (none given a non-exception), {len(listened)} events with set_exception listeners, {ne} emit sites checked (positive control matched)', f'control {ks}, {nd} direct calls')
+
+
+# ---------------------------------------------------------------------------------------------------------------------
+def division_guard(ctx, rule, modules, floor=1):
+    """A parser that divides by a count it has just read from the packet must handle the count 0 (which the matching
+    serialiser produces for an empty list): the divisor is tested against zero on the way to the division."""
+    R, p = ctx.r, ctx.p
+    from .paths import flat_guards
+
+    def parsed(fn, name):
+        """is `name` assigned from the input (a subscript / len / unpack of something)?"""
+        for n in walk_local(fn):
+            if isinstance(n, ast.Assign) and any(isinstance(t, ast.Name) and t.id == name for t in n.targets):
+                if any(isinstance(x, ast.Subscript) for x in ast.walk(n.value)) or any(isinstance(x, ast.Call) and (dotted(x.func) or '').split('.')[-1] in ('unpack', 'unpack_from', 'from_bytes') for x in ast.walk(n.value)):
+                    return True
+        return False
+
+    def scan(tree):
+        out = []
+        for fn in [x for x in ast.walk(tree) if isinstance(x, FUNC)]:
+            for n in walk_local(fn):
+                if isinstance(n, ast.BinOp) and isinstance(n.op, (ast.FloorDiv, ast.Mod, ast.Div)) and isinstance(n.right, ast.Name) and not isinstance(n.left, (ast.Constant, ast.JoinedStr)):
+                    d = n.right.id
+                    if not parsed(fn, d):
+                        continue
+                    g = [(t, pol) for t, pol in flat_guards(n, stop=fn) if any(isinstance(x, ast.Name) and x.id == d for x in ast.walk(t))]
+                    out.append((fn, n, d, bool(g)))
+        return out
+    n = 0
+    for mn in modules:
+        m = p.modules.get(mn)
+        if m is None:
+            R.bad(rule, mn, 'anchor missing')
+            continue
+        for fn, node, d, ok in scan(m.tree):
+            n += 1
+            R.check(ok, rule, f'{p.qual_of(fn)} | / {d}', f'`{d}` (read from the packet) is tested before it is used as a divisor', f'`{d}` is read from the packet and used as a divisor with no test on the way: a count of 0 (what the serialiser writes for an empty list) raises ZeroDivisionError, the unit does not parse back', f'{m.rel}:{node.lineno}')
+    ct = ast.parse('def bad(p):\n    c = p[1]\n    return (len(p) - 2) // c\ndef good(p):\n    c = p[1]\n    if c == 0:\n        return []\n    return (len(p) - 2) // c\n')
+    for x in ast.walk(ct):
+        for ch in ast.iter_child_nodes(x):
+            ch._parent = x
+    cs = [(f.name, ok) for f, _, _, ok in scan(ct)]
+    R.check(cs == [('bad', False), ('good', True)] and n >= floor, rule, f'{", ".join(modules)} | divisions by parsed values', f'{n} sites, all guarded (positive control matched)', f'control {cs}, {n} sites')
+
+
+# ---------------------------------------------------------------------------------------------------------------------
+def argument_agreement(ctx, rule, modules, names, floor=1):
+    """Positional arguments along a chain of same-named functions (provider callbacks): a Name argument that is spelled
+    like *another* parameter of the callee sits in the wrong position (`get_long_term_key(connection, ediv, rand)` against
+    `def get_long_term_key(self, connection, rand, ediv)`).  Callees are all definitions of that name in `modules` that
+    accept that many positional arguments."""
+    R, p = ctx.r, ctx.p
+    defs = {}
+    for mn in modules:
+        m = p.modules.get(mn)
+        if m is None:
+            R.bad(rule, mn, 'anchor missing')
+            continue
+        for fn in [x for x in ast.walk(m.tree) if isinstance(x, FUNC) and x.name in names]:
+            defs.setdefault(fn.name, []).append((m, fn))
+    n = 0
+    for mn in modules:
+        m = p.modules.get(mn)
+        if m is None:
+            continue
+        for c in [x for x in ast.walk(m.tree) if isinstance(x, ast.Call) and isinstance(x.func, ast.Attribute) and x.func.attr in names]:
+            for dm, fn in defs.get(c.func.attr, []):
+                params = [a.arg for a in fn.args.args if a.arg not in ('self', 'cls')]
+                if len(c.args) != len(params) or any(isinstance(a, ast.Starred) for a in c.args):
+                    continue
+                n += 1
+                for i, a in enumerate(c.args):
+                    if isinstance(a, ast.Name) and a.id in params and params[i] != a.id:
+                        R.bad(rule, f'{p.qual_of(c)} | {c.func.attr}({", ".join(norm(x) for x in c.args)})', f'argument {i + 1} is `{a.id}` but {p.qual_of(fn)} takes `{params[i]}` there (and has a parameter called `{a.id}` elsewhere): the values arrive swapped', f'{m.rel}:{c.lineno}')
+    R.check(n >= floor, rule, f'{", ".join(modules)} | calls of {sorted(names)}', f'{n} call/definition pairs, Name arguments sit at the position of the parameter they are named after', f'only {n} call sites found')
+
+
+def callable_slot_types(ctx, rule, classes, floor=1):
+    """A callback slot annotated `Callable[[T1, .., Tn], R]` is called with arguments whose declared types (fields of the
+    event object passed in) are T1..Tn in that order."""
+    R, p = ctx.r, ctx.p
+
+    def slot_types(ann):
+        for x in ast.walk(ann):
+            if isinstance(x, ast.Subscript) and (dotted(x.value) or '').split('.')[-1] == 'Callable' and isinstance(x.slice, ast.Tuple) and x.slice.elts and isinstance(x.slice.elts[0], ast.List):
+                return [text(t) for t in x.slice.elts[0].elts]
+        return None
+
+    def field_type(fn, e):
+        """declared type of `param.field` when param is annotated with a known class"""
+        if not (isinstance(e, ast.Attribute) and isinstance(e.value, ast.Name)):
+            return None
+        for a in fn.args.args:
+            if a.arg == e.value.id and a.annotation is not None:
+                cn = text(a.annotation).split('.')[-1]
+                for q, ci in p.classes.items():
+                    if ci.name == cn and e.attr in ci.annots:
+                        return text(ci.annots[e.attr])
+        return None
+    n = 0
+    for cq in classes:
+        ci = p.cls(cq)
+        if ci is None:
+            R.bad(rule, cq, 'anchor missing')
+            continue
+        slots = {a: slot_types(an) for a, an in ci.annots.items()}
+        slots = {a: t for a, t in slots.items() if t}
+        for mname, fn in ci.methods.items():
+            for c in calls_in_(fn):
+                d = dotted(c.func) or ''
+                if d.startswith('self.') and d[5:] in slots and len(c.args) == len(slots[d[5:]]):
+                    for i, a in enumerate(c.args):
+                        ft = field_type(fn, a)
+                        if ft is None:
+                            continue
+                        n += 1
+                        R.check(ft.split('.')[-1] == slots[d[5:]][i].split('.')[-1], rule, f'{cq}.{mname} | {d} arg {i + 1}', f'`{norm(a)}`: {ft}', f'argument {i + 1} of `{d}(...)` is `{norm(a)}` (declared {ft}) but the slot takes {slots[d[5:]][i]} there: the callback receives its arguments in the wrong order', p.loc(c))
+    R.check(n >= floor, rule, f'{", ".join(classes)} | typed callback arguments', f'{n} arguments checked against their slot type', f'only {n} typed arguments found')
+
+
+def calls_in_(fn):
+    return [x for x in ast.walk(fn) if isinstance(x, ast.Call)]
+
+
+# ---------------------------------------------------------------------------------------------------------------------
+def to_bytes_width(ctx, rule, modules, floor=1):
+    """`flag.value.to_bytes(N, ..)` raises OverflowError when the flag type has members above bit 8N-1: the value must be
+    masked to the field (or N must cover the type)."""
+    R, p = ctx.r, ctx.p
+
+    def ev(e, depth=0):
+        if isinstance(e, ast.Constant) and isinstance(e.value, int):
+            return e.value
+        if isinstance(e, ast.BinOp):
+            a, b = ev(e.left, depth), ev(e.right, depth)
+            if a is None or b is None:
+                return None
+            try:
+                return {ast.LShift: lambda: a << b, ast.BitOr: lambda: a | b, ast.BitAnd: lambda: a & b, ast.Add: lambda: a + b, ast.Sub: lambda: a - b, ast.Mult: lambda: a * b}[type(e.op)]()
+            except Exception:
+                return None
+        if isinstance(e, ast.Attribute) and isinstance(e.value, ast.Name) and depth < 3:
+            for q, ci in p.classes.items():
+                if ci.name == e.value.id and e.attr in ci.assigns:
+                    return ev(ci.assigns[e.attr], depth + 1)
+        return None
+
+    def flag_max(cname):
+        best = None
+        for q, ci in p.classes.items():
+            if ci.name == cname and any(b.split('.')[-1].endswith('Flag') for b in ci.bases):
+                vals = [ev(v) for v in ci.assigns.values()]
+                vals = [v for v in vals if isinstance(v, int)]
+                if vals:
+                    best = max(vals) if best is None else max(best, max(vals))
+        return best
+
+    def attr_class(mod, attr):
+        for n in ast.walk(mod.tree):
+            if isinstance(n, ast.AnnAssign):
+                t = n.target
+                nm = t.attr if isinstance(t, ast.Attribute) else t.id if isinstance(t, ast.Name) else None
+                if nm == attr:
+                    return text(n.annotation).split('.')[-1].split(' ')[0]
+        return None
+
+    def scan(mod_tree, classify):
+        out = []
+        for c in ast.walk(mod_tree):
+            if isinstance(c, ast.Call) and isinstance(c.func, ast.Attribute) and c.func.attr == 'to_bytes' and c.args and isinstance(c.args[0], ast.Constant) and isinstance(c.args[0].value, int):
+                width = c.args[0].value
+                recv = c.func.value
+                masked = None
+                if isinstance(recv, ast.BinOp) and isinstance(recv.op, ast.BitAnd):
+                    for side, other in ((recv.left, recv.right), (recv.right, recv.left)):
+                        mv = ev(other)
+                        if isinstance(mv, int):
+                            masked, recv = mv, side
+                            break
+                if isinstance(recv, ast.Attribute) and recv.attr == 'value' and isinstance(recv.value, ast.Attribute):
+                    mx = classify(recv.value.attr)
+                    if mx is None:
+                        continue
+                    ok = mx.bit_length() <= 8 * width or (masked is not None and masked.bit_length() <= 8 * width)
+                    out.append((c, recv.value.attr, width, mx, ok))
+        return out
+    n = 0
+    for mn in modules:
+        m = p.modules.get(mn)
+        if m is None:
+            R.bad(rule, mn, 'anchor missing')
+            continue
+
+        def classify(attr, m=m):
+            cn = attr_class(m, attr)
+            return flag_max(cn) if cn else None
+        for c, attr, width, mx, ok in scan(m.tree, classify):
+            n += 1
+            R.check(ok, rule, f'{p.qual_of(c)} | {attr}.value.to_bytes({width})', f'fits: the flag type goes up to bit {mx.bit_length() - 1} and the value is masked / the field is wide enough', f'`{attr}` is a flag type with members up to bit {mx.bit_length() - 1} but is written with to_bytes({width}) unmasked: with such a feature configured the handler raises OverflowError and the command / procedure is never concluded', f'{m.rel}:{c.lineno}')
+    ct = ast.parse('a = self.f.value.to_bytes(8, "little")\nb = (self.f.value & 0xFFFFFFFFFFFFFFFF).to_bytes(8, "little")\n')
+    cs = [ok for *_, ok in scan(ct, lambda a: 1 << 70)]
+    R.check(cs == [False, True] and n >= floor, rule, f'{", ".join(modules)} | flag values written with a fixed width', f'{n} sites fit their field (positive control matched)', f'control {cs}, {n} sites')
